@@ -102,14 +102,26 @@ def hook_setName : List String :=
    "self.name := name",
    "self.owner := owner"]
 
-/-- `Hook.__get__`, class-level part - mirrored by `HookReg.touch`: a hook found on a base class is replaced by a NEW empty hook object on the class asked (also when the access goes through an instance); on the class itself the descriptor is returned -/
-def hook_getClass : List String :=
+/-- `Hook.__get__`, class-level part - mirrored by `HookReg.touch` / `HookReg.askAs`: asked for a class other than its
+    owner (a hook found on a base class by attribute lookup - also when the access goes through an instance -, `super(K, x).h`,
+    an explicit descriptor call) the question is handed to the hook object of THAT class: with `reuse` the one the class
+    carries in its own `__dict__`, a new empty one being created only when it carries none (or one that belongs to another
+    class); without `reuse` a NEW empty hook object every time, which replaces whatever the class carried.  On the class
+    itself the descriptor is returned.  The flag is the generated fact `getOwnerReuse`. -/
+def hook_getClass (reuse : Bool) : List String :=
   ["def(self, instance, owner)",
-   "if self.owner != owner:",
-   "  v0 := Hook()",
-   "  v0.__orig_class__ := self.__orig_class__",
-   "  setattr(owner, self.name, v0)",
-   "  return v0.__get__(instance, owner)",
+   "if self.owner != owner:"] ++
+  (if reuse then
+    ["  v0 := owner.__dict__.get(self.name, None)",
+     "  if (not isinstance(v0, Hook) or v0.owner != owner):",
+     "    v0 := Hook()",
+     "    v0.__orig_class__ := self.__orig_class__",
+     "    setattr(owner, self.name, v0)"]
+  else
+    ["  v0 := Hook()",
+     "  v0.__orig_class__ := self.__orig_class__",
+     "  setattr(owner, self.name, v0)"]) ++
+  ["  return v0.__get__(instance, owner)",
    "if instance is None:",
    "  return self"]
 
